@@ -887,7 +887,15 @@ func (s *Service) runPipeline(ctx context.Context, rp *runnablePipeline) error {
 				return nil
 			}
 			if err != nil {
-				return cerrors.Errorf("node %s stopped with error: %w", node.ID(), err)
+				err = cerrors.Errorf("node %s stopped with error: %w", node.ID(), err)
+				// Record the reason on the tomb before returning, i.e. before the
+				// deferred nodesWg.Done() fires. The tomb records the return value
+				// only after this function returned; the cleanup goroutine woken by
+				// nodesWg.Wait() could otherwise read rp.t.Err() first, see
+				// tomb.ErrStillAlive and report a failed run as stopped by the user
+				// (no error, no recovery). Only the first reason is kept.
+				rp.t.Kill(err)
+				return err
 			}
 			return nil
 		})
